@@ -67,7 +67,9 @@ class Injector:
         if self.plan is not None and self.fired is None and i == self.plan["k"]:
             off = self.plan["off"]
             if payload is not None:
-                off = min(off, max(len(payload) - 1, 0))
+                # off >= len: ALL the data is delivered, then the exception arrives (Ctrl-C right after the
+                # write); off < 0: counted from the end (-1 = all but the last character)
+                off = max(len(payload) + off, 0) if off < 0 else min(off, len(payload))
             self.fired = (kind, payload, off)
             return off
         return None
@@ -168,13 +170,19 @@ old_iterm2._stdout_write = lambda s: sys.stdout.write(s)
 # frames
 
 
-def make_gif(n: int, w: int, h: int, seed: int) -> Image.Image:
+def make_gif(n: int, w: int, h: int, seed: int, kinds=None) -> Image.Image:
+    """`kinds[i]` = "noise": frame i is incompressible (its kitty transmission spans several chunks),
+    "flat": uniform (one small unchunked transmission); default: nearly flat"""
     rng = random.Random(seed)
     frames = []
     for i in range(n):
+        kind = kinds[i] if kinds else None
+        if kind == "noise":
+            frames.append(Image.frombytes("RGB", (w, h), bytes(rng.randrange(256) for _ in range(w * h * 3))))
+            continue
         im = Image.new("RGB", (w, h), (rng.randrange(256), rng.randrange(256), 40 * i % 256))
         px = im.load()
-        for _ in range(3):
+        for _ in range(0 if kind == "flat" else 3):
             px[rng.randrange(w), rng.randrange(h)] = (rng.randrange(256), 255 - 30 * i % 256, rng.randrange(256))
         frames.append(im)
     b = io.BytesIO()
@@ -189,11 +197,16 @@ def make_gif(n: int, w: int, h: int, seed: int) -> Image.Image:
 STYLES = {"block": BlockImage, "kitty": KittyImage, "iterm2": ITerm2Image}
 
 
+def gif_for(d) -> Image.Image:
+    side = d.get("px", 6)
+    return make_gif(max(d["nframes"], 1), side, side, d["iseed"], d.get("frame_kinds"))
+
+
 def setup_style(d):
     """terminal identity and the per-style class state the draw path reads"""
     env.reset_env()
     term = d.get("term", "")
-    env.set_env(term_size=(d["W"], d["H"]), cell_size=(5, 10), name=term)
+    env.set_env(term_size=(d["W"], d["H"]), cell_size=tuple(d.get("cell", (5, 10))), name=term)
     KittyImage._KITTY_VERSION = tuple(d.get("kitty_version") or ())
     return STYLES[d["style"]]
 
@@ -260,7 +273,7 @@ class Scripted(Renderable):
 def source_frames(d):
     """frame strings for the scripted renderable: real renders of an animated image"""
     cls = setup_style(d)
-    im = cls(make_gif(max(d["nframes"], 1), 6, 6, d["iseed"]))
+    im = cls(gif_for(d))
     env.set_env(term_size=(200, 100))
     im.set_size(width=d["cols"]) if d["by_width"] else im.set_size(height=d["lines"])
     out = []
@@ -365,17 +378,28 @@ def old_hook(cls) -> str:
     inj = INJ.plan, INJ.n, INJ.fired, INJ.log
     INJ.reset(None)
     try:
-        cls._handle_interrupted_draw()
+        try:
+            cls._handle_interrupted_draw()
+        except TypeError:  # not a static/class method (any more): call it on an instance
+            cls(Image.new("RGB", (2, 2)))._handle_interrupted_draw()
     finally:
         sys.stdout = so
         INJ.plan, INJ.n, INJ.fired, INJ.log = inj
     return out.getvalue()
 
 
+def documented_hook(style: str) -> str:
+    """what `_handle_interrupted_draw` is documented to print, whatever was drawn before: kitty ends the last
+    command (ST, twice for Konsole) and sends the "last chunk"; iterm2 ends the last transmission. The model is
+    given THIS (the translator separately pins the live method's output in Generated.lean), so an implementation
+    that prints less on some path shows up as a correspondence mismatch with a concrete input."""
+    return {"kitty": ctl.ST * 2 + ctl.KITTY_END_CHUNKED, "iterm2": ctl.ST * 2}.get(style, "")
+
+
 def run_old(d) -> RunResult:
     cls = setup_style(d)
     r = RunResult()
-    im = cls(make_gif(d["nframes"], 6, 6, d["iseed"]))
+    im = cls(gif_for(d))
     if d.get("dynamic"):
         im.size = DynSize.FIT
     else:
@@ -466,7 +490,7 @@ def run_old(d) -> RunResult:
     val = d["v_align"] or "-"
     r.cfg = (f"{size[0]} {size[1]} {hal} {d['pad_width']} {val} {d['pad_height']} {int(not d.get('dynamic'))} "
              f"{int(d['tty'])} {int(animation)} {int(d['allow_scroll'])} {int(d['check_size'])} {d['W']} {d['H']} "
-             f"{toks_wire(clear)} {pre} {toks_wire(old_hook(cls))}")
+             f"{toks_wire(clear)} {pre} {toks_wire(documented_hook(d['style']))}")
     rw = d["pad_width"] if d["pad_width"] > 0 else max(d["W"] + d["pad_width"], 1)
     rh = d["pad_height"] if d["pad_height"] > 0 else max(d["H"] + d["pad_height"], 1)
     r.box = (max(rw, size[0]), max(rh, size[1]))
@@ -821,7 +845,7 @@ class C06(Property):
         else:
             import term_image.image.common as C  # the real `_format_render` places the last frame in the box
             cls = setup_style(d)
-            im = cls(make_gif(max(d["nframes"], 1), 6, 6, d["iseed"]))
+            im = cls(gif_for(d))
             im._size = tuple(d["_size"])
             rw = d["pad_width"] if d["pad_width"] > 0 else max(d["W"] + d["pad_width"], 1)
             rh = d["pad_height"] if d["pad_height"] > 0 else max(d["H"] + d["pad_height"], 1)
